@@ -283,3 +283,44 @@ func Status(s ignore.IgnoreStatus) string {
 	}
 	return fmt.Sprintf("UnknownStatus%d", int(s))
 }
+
+// ---------- the C03 scan premise (Harness/ScanIgnoredH.v) ----------
+
+// C03Header is the Coq preamble of the case files of the "-prop C03" modes.
+const C03Header = "From Coq Require Import List Bool Arith String Ascii.\nImport ListNotations.\nFrom Mv Require Import Common.Bytes Model.Entry Model.IgnoreScan Model.ScanIgnored Harness.ScanIgnoredH.\nOpen Scope string_scope.\nOpen Scope list_scope."
+
+// C03Rule describes the cases of the "-prop C03" modes.
+const C03Rule = "a case = core.Scan of a real temporary tree with a real ignorer, together with the table of that ignorer's answers (status, continuation) for every path of the tree; distinct = distinct Coq terms; non-trivial = the ignorer ignores some directory but asks the walk to continue into it, or explicitly re-includes some path"
+
+// C03Case scans the tree with the given real ignorer and renders the case:
+// tree, the ignorer's answer for every path of the tree, snapshot.
+func C03Case(tree *Node, ig ignore.Ignorer) (coq string, nontrivial bool, tags []string) {
+	root, err := tree.Materialize()
+	if err != nil {
+		panic(err)
+	}
+	defer os.RemoveAll(root)
+	snap, _, err := Scan(root, ig)
+	if err != nil {
+		panic(err)
+	}
+	paths, nodes := tree.Paths()
+	rows := make([]string, 0, len(paths))
+	ignoredDirs, reincluded := 0, 0
+	for i, p := range paths {
+		dir := nodes[i].K == "dir"
+		st, cont := ig.Ignore(p, dir)
+		rows = append(rows, fmt.Sprintf("(%s, %s, %s, %s)", coretree.Str(p), Bool(dir), Status(st), Bool(cont)))
+		if st == ignore.IgnoreStatusIgnored && cont {
+			ignoredDirs++
+		}
+		if st == ignore.IgnoreStatusUnignored {
+			reincluded++
+		}
+	}
+	nontrivial = ignoredDirs > 0 || reincluded > 0
+	tags = append(tags, fmt.Sprintf("traversed-ignored-dirs:%d", min(ignoredDirs, 3)),
+		fmt.Sprintf("reincluded-paths:%d", min(reincluded, 3)), fmt.Sprintf("tree-nodes:%d", tree.Size()/5*5))
+	coq = fmt.Sprintf("S3 (%s) [%s] %s", tree.Coq(), strings.Join(rows, "; "), coretree.Entry(HexDigests(snap)))
+	return
+}
